@@ -131,6 +131,31 @@ def run(res, ctx):
                     if d is not None:
                         reqs.append(C.scan_request(raw))
                         expect.append(raw)
+        # the same characters arriving in a declared legacy encoding that can express them (seeded change C19-m3 pre-filtered on the UTF-8 lead bytes)
+        for codec, ch in (("cp1255", "\u200f"), ("iso-8859-8", "\u200f"), ("gb18030", "\u202e"), ("gb18030", "\u2066"), ("utf-8", "\u202e")):
+            for tmpl, line in (("# -*- coding: {codec} -*-\nx = 1\ns = 'ab{c}cd'  # note\n", 3), ("# -*- coding: {codec} -*-\nimport os  # {c}\nos.system(cmd)\n", 2)):
+                text = tmpl.replace("{codec}", codec).replace("{c}", ch)
+                for nl in ("\n", "\r\n"):
+                    raw = text.replace("\n", nl).encode(codec)
+                    for chan in ("file", "stdin"):
+                        r = scan_file(scratch, raw) if chan == "file" else scan_stdin(raw)
+                        res.case(("bidi-legacy", codec, ch, line, nl, chan), True)
+                        res.count("bidi-legacy:" + codec)
+                        ok = False
+                        fs = None
+                        try:
+                            fs, errs = findings_of_json(r["out"])
+                            b = [f for f in fs if f[0] == "B613"]
+                            ok = len(b) == 1 and b[0][3] == line and not errs
+                        except Exception:
+                            pass
+                        if not ok:
+                            res.violation("bidirectional control character not reported as B613 on its line when the text arrives in a declared legacy encoding",
+                                          {"codec": codec, "char": "U+%04X" % ord(ch), "newline": repr(nl), "channel": chan, "source_hex": raw.hex(),
+                                           "findings": [list(x) for x in fs] if fs else None, "exit": r["exit"], "exc": r["exc"]})
+                    if d is not None:
+                        reqs.append(C.scan_request(raw))
+                        expect.append(raw)
         if d is not None and reqs:
             model = d.ask_many(reqs)
             real = C.batch_real_scan(scratch, expect)
